@@ -134,6 +134,21 @@ class Collections:
             old = it.read_loc(items[i][1][1][1])
             self._set(it, a0, seq("map", items[:i] + items[i + 1:]))
             return E.Some(old)
+        if name == "retain" and len(args) == 2:
+            keep = []
+            for kv in items:
+                nm = "key#%d" % (len(it.heap) + 1)
+                it.heap[nm] = kv[1][0]
+                r = it.deref_val(it.apply(args[1], [E.href(nm), kv[1][1]]))
+                if not E.is_int(r):
+                    raise E.Unsupported("retain predicate undetermined")
+                if r[1]:
+                    keep.append(kv)
+            self._set(it, a0, seq("map", keep))
+            return E.UNIT
+        if name == "clear":
+            self._set(it, a0, seq("map", []))
+            return E.UNIT
         if name == "entry":
             i = self._map_find(it, items, args[1])
             cell = items[i][1][1] if i is not None else None
@@ -187,9 +202,28 @@ class Collections:
                     a0 = mat
                     args = [mat] + list(args[1:])
                 s0 = mat
+        if s0 is None and a0 is not None and name in ("into_iter", "iter", "iter_mut") and ("option::Option" in full or "result::Result" in full):
+            # an Option / Result iterates over its zero or one (Some / Ok) payloads
+            d0 = it.deref_val(a0)
+            if d0 is not None and d0[0] == "adt" and d0[1] in (E.OPTION, E.RESULT) and d0[2] in (0, 1):
+                some = (d0[2] == 1) if d0[1] == E.OPTION else (d0[2] == 0)
+                return seq("iter", [d0[3].get(0, E.TOP)] if some else [])
         if s0 is None:
             return None
         k, items = s0[1], s0[2]
+        if name == "flatten":
+            out = []
+            for x in items:
+                xv = it.deref_val(x) if (x is not None and x[0] == "ref") else x
+                if is_seq(xv):
+                    out += list(xv[2])
+                elif xv is not None and xv[0] == "adt" and xv[1] in (E.OPTION, E.RESULT) and xv[2] in (0, 1):
+                    some = (xv[2] == 1) if xv[1] == E.OPTION else (xv[2] == 0)
+                    if some:
+                        out.append(xv[3].get(0, E.TOP))
+                else:
+                    raise E.Unsupported("flatten over an element that is neither a collection nor an Option / Result")
+            return seq("iter", out)
         # --- inspection
         if name == "len":
             return E.Int(len(items))
@@ -260,6 +294,33 @@ class Collections:
             return E.UNIT
         if name == "clear":
             self._set(it, a0, seq(k, []))
+            return E.UNIT
+        if name in ("extend", "append", "extend_from_slice") and k == "vec" and len(args) == 2:
+            src = self._get(it, args[1]) if args[1] is not None else None
+            if src is None:
+                sv = it.deref_val(args[1]) if args[1][0] == "ref" else args[1]
+                src = sv if is_seq(sv) else None
+            if src is None:
+                # Option / single value iterables
+                sv = it.deref_val(args[1]) if args[1][0] == "ref" else args[1]
+                if sv is not None and sv[0] == "adt" and sv[1] == E.OPTION:
+                    src = seq("iter", [sv[3][0]] if sv[2] == 1 else [])
+            if src is not None:
+                self._set(it, a0, seq(k, items + list(src[2])))
+                if name == "append" and args[1][0] == "ref":
+                    self._set(it, args[1], seq(src[1], []))
+                return E.UNIT
+        if name in ("retain", "retain_mut") and k in ("vec", "set") and len(args) == 2:
+            keep = []
+            for x in items:
+                nm = "item#%d" % (len(it.heap) + 1)
+                it.heap[nm] = x
+                r = it.deref_val(it.apply(args[1], [E.href(nm)]))
+                if not E.is_int(r):
+                    raise E.Unsupported("retain predicate undetermined")
+                if r[1]:
+                    keep.append(it.heap[nm])
+            self._set(it, a0, seq(k, keep))
             return E.UNIT
         if name in ("last", "first") and k in ("vec", "set"):
             if not items:
